@@ -50,6 +50,7 @@ class Link(object):
         self.eof_reads = 0              # read() calls that returned b''
         self.idle = 0                   # times select found nothing
         self.send_error = None          # exception instance to raise on send
+        self.peer_reset = False         # the peer answered with RST
         self.before_send = None         # one-shot callable run inside send()
         self.in_script = False
         self.killed = False
@@ -107,6 +108,7 @@ class FakeFile(object):
     def __init__(self, link):
         self.link = link
         self.closed = False
+        link.world.files.append(self)
 
     def fileno(self):
         if self.closed:
@@ -227,7 +229,8 @@ class FakeSocket(object):
     def shutdown(self, how):
         if self.closed:
             raise OSError(errno.EBADF, 'Bad file descriptor')
-        if self.link is None:
+        if self.link is None or self.link.peer_reset:
+            # (after the peer's RST the endpoint is no longer connected)
             raise OSError(errno.ENOTCONN, 'Transport endpoint is not '
                           'connected')
         self.world.yield_point('shutdown', self.link)
@@ -292,6 +295,7 @@ class World(object):
         self.plan = plan
         self.links = []
         self.sockets = []
+        self.files = []
         self.connects = []          # (addr, outcome)
         self.connect_log = []       # (seq, outcome, thread name)
         self.threads = []
@@ -460,6 +464,18 @@ class World(object):
                         return [rlist[0]], [], []
                 return [], [], []
         return S
+
+    def open_handles(self):
+        """descriptors of connected sessions that were never closed: the
+        sockets that reached a peer and the file objects made from them.
+        (Not meaningful after a handler called connect() without a
+        disconnect() first: the library then simply drops the old objects
+        and the interpreter closes them - callers skip that case.)"""
+        return ['socket of link %d' % self.links.index(so.link)
+                for so in self.sockets
+                if so.link is not None and not so.closed] + \
+               ['file object of link %d' % self.links.index(f.link)
+                for f in self.files if not f.closed]
 
     # ---- helpers for oracles
     def join_threads(self, timeout=20.0):
